@@ -920,7 +920,7 @@ def gen_service_config(rng, spec, p_named=0.7):
                 "maxAttempts": rng.randint(2, 6),
                 "initialBackoff": _dur(rng),
                 "maxBackoff": rng.choice(["1s", "2s", "4s", "10s", "32s", "60s", "0.5s", "6.5s", "1.075s", "8.0625s"]),
-                "backoffMultiplier": rng.choice([1.3, 2, 1.5, 3, 1.25, 2.5, 1]),
+                "backoffMultiplier": rng.choice([1.3, 2, 1.5, 3, 1.25, 2.5, 1, 0.5]),
                 "retryableStatusCodes": rng.sample(ALL_CODES, ncodes),
             }
         entries.append(e)
